@@ -15,7 +15,7 @@ class re-checks without touching the Lean sources; a harmful one (a host class a
 or `@`, a label allowed to end with `-` only in one place, …) breaks an obligation.
 -/
 namespace Ural.UrlPattern
-open Ural.Py Ural.Py.Re Ural.Gen.Patterns
+open Ural.Py Ural.Py.Re Ural.Py.Re.Extra Ural.Gen.Patterns
 
 /-- the pattern -/
 abbrev R : Re := RELAXED_URL_WITH_PROTOCOL_RE
